@@ -10,9 +10,11 @@ EXPLANATION = (
     "Static decision of capacity clauses of C09: (1) in carquet_snappy_compress and "
     "carquet_lz4_compress the comparison of dst_capacity with the codec's own compress_bound(src_size), "
     "with an error return, dominates every store through dst; the zlib/zstd wrappers hand dst_capacity "
-    "unchanged to the library as its output limit; (2) the page writer's compress_data pairs, per codec, "
-    "the bound function with the compressor of the same codec, allocates exactly `bound` bytes and "
-    "passes the same `bound` as capacity; unknown codecs error; (3) the match-distance guard of the "
+    "unchanged to the library as its output limit; (2) the page writer's compress_data, executed abstractly "
+    "once per codec value with its callees hooked, pairs the bound function with the compressor of the "
+    "same codec, allocates exactly `bound` bytes, passes the same `bound` as capacity, appends only the "
+    "compressor's buffer (the caller's bytes only for UNCOMPRESSED), frees it, and returns an error "
+    "without writing for unknown codecs and for a failed scratch allocation; (3) the match-distance guard of the "
     "built-in compressors admits only offsets that fit the two offset bytes they emit (<= 65535), and "
     "the guard dominates the emission; (4) every decompressor stores *dst_size only on success paths "
     "and what it reports cannot exceed dst_capacity (the built-in ones compare against it, the wrappers "
